@@ -53,6 +53,9 @@ func (s *Snapshot) walk(path string, v reflect.Value, depth int) {
 			return
 		}
 		for i := 0; i < v.NumField(); i++ {
+			if v.Type().Field(i).Name == "_" {
+				continue // padding
+			}
 			s.walk(path+"."+v.Type().Field(i).Name, v.Field(i), depth+1)
 		}
 	case reflect.Slice:
@@ -158,6 +161,9 @@ func hashWalk(h hasher, v reflect.Value, depth int) {
 			return
 		}
 		for i := 0; i < v.NumField(); i++ {
+			if v.Type().Field(i).Name == "_" {
+				continue // padding
+			}
 			hashWalk(h, v.Field(i), depth+1)
 			_, _ = h.Write(sepMark)
 		}
